@@ -430,6 +430,32 @@ Plan generate_exhaust(uint64_t seed) {
     return pl;
 }
 
+Plan generate_serialwrap(uint64_t seed) {
+    Plan pl; pl.seed = seed;
+    Rng r = Rng::keyed(seed, "genserialwrap");
+    Knobs& k = pl.knobs;
+    k.profile = "clean"; k.focus = "C06x"; k.variant = (int)r.below(2);
+    k.max_steps = 20000000;
+    HostCfg h; h.name = "h0"; k.hosts.push_back(h);
+    k.client.brokers = "h0"; k.client.client_id = "serialwrap"; k.client.keep_alive = 0;
+    auto& nk = k.net; nk.lat_max = 1 * MS; nk.short_write_p = 0; nk.seg_split_p = 0;
+    auto& bk = k.broker; bk.ack_delay_max = 0; bk.ack_zero_p = 1.0;
+    static const int counts[] = {32767, 32768, 33000, 65536};
+    int n = counts[seed % 4] + (int)r.below(3) - 1;
+    int id = 1;
+    auto push = [&](Step s) { s.id = id++; pl.steps.push_back(std::move(s)); };
+    auto pub = [&](int qos, ns_t delay) { Step s; s.kind = SK::Publish; s.a = qos; s.s1 = "t/" + std::to_string(id); s.s2 = std::to_string(id) + ":"; s.delay = delay; push(s); };
+    { Step s; s.kind = SK::Run; push(s); }
+    { Step s; s.kind = SK::FPingSilent; s.a = 1; s.delay = 1 * SEC; push(s); }      // the broker withholds every acknowledgement from here on
+    pub((int)r.range(1, 2), 10 * MS);                                                // A: stays unacknowledged
+    { Step s; s.kind = SK::PublishBurst; s.a = n; s.b = 0; s.delay = 10 * MS; push(s); }   // QoS 0: completes when written, consumes serial numbers
+    pub((int)r.range(1, 2), 10 * MS);                                                // B
+    if (r.chance(0.5)) pub((int)r.range(0, 2), 0);
+    { Step s; s.kind = SK::Wait; s.delay = 1 * SEC; push(s); }
+    // Heal: the broker answers again; the sentry gives the connection up (no reply for 20 s) and A, B are retransmitted
+    return pl;
+}
+
 Plan generate_rc(uint64_t index) {
     int byte = (int)(index % 256), cat = (int)((index / 256) % 9), chunk = (int)((index / 2304) % 2);
     Plan pl; pl.seed = index;
